@@ -7,6 +7,7 @@ import html
 import json
 import logging
 import re
+import warnings
 
 from .common import Ctx, Driver, CORPUS
 
@@ -100,6 +101,19 @@ def declared_of(data: bytes):
 def dammit_line(data, known, mode):
     d = declared_of(data) if data else None
     return f"c19 dammit {';'.join(S(k) for k in known) if known else '-'} {S(d) if d else '-'} {mode or 'none'} {L(data)}"
+
+
+def call_line(c):
+    """protocol line of the model for a 'ud' call (known, override, user encodings; the declaration as observed)"""
+    data = bytes(c["b"])
+    d = declared_of(data) if data else None
+    j = lambda xs: ";".join(S(k) for k in xs) if xs else "-"
+    return f"c19 dammitf {j(c.get('known') or [])} {j(c.get('override') or [])} {j(c.get('user') or [])} {S(d) if d else '-'} {c['mode'] or 'none'} {L(data)}"
+
+
+def call_nontrivial(c):
+    first = effective_first(c)
+    return bool(first and expected_carrier(first) and c["mode"] is not None and any(0x80 <= x <= 0x9F for x in strip_bom_oracle(bytes(c["b"]))))
 
 
 def model_agrees(expected: str, reply: str):
@@ -252,6 +266,41 @@ def whole_input_oracle(data, enc, mode, piece):
 # ----------------------------------------------------------------------------------------------
 # a pristine bs4 in a child process: every request is answered by a fork of the freshly imported state
 # ----------------------------------------------------------------------------------------------
+UD_FORMS = ["kw", "pos3", "tuple", "gen", "allkw"]
+
+
+def ud_invoke(UnicodeDammit, c):
+    """One UnicodeDammit constructor call in the call form c['form'] (how the arguments are passed), with optional
+    override_encodings / user_encodings; 'known' may be None (argument omitted).  Returns unicode_markup, the replacement
+    flag, original_encoding, the markup attribute, and whether every list the caller passed is still what it was."""
+    data, mode, form = bytes(c["b"]), c["mode"], c.get("form", "kw")
+    known = None if c.get("known") is None else list(c["known"])
+    ov = None if c.get("override") is None else list(c["override"])
+    us = None if c.get("user") is None else list(c["user"])
+    before = (None if known is None else list(known), None if ov is None else list(ov), None if us is None else list(us))
+    kw = {}
+    if ov is not None:
+        kw["override_encodings"] = ov
+    if us is not None:
+        kw["user_encodings"] = us
+    if form == "pos3":                      # the historical positional form: (markup, known_definite_encodings, smart_quotes_to)
+        d = UnicodeDammit(data, known if known is not None else [], mode, **kw)
+    elif form == "tuple" and known is not None:
+        d = UnicodeDammit(data, tuple(known), smart_quotes_to=mode, **kw)
+    elif form == "gen" and known is not None:
+        d = UnicodeDammit(data, (k for k in known), smart_quotes_to=mode, **kw)
+    elif form == "allkw":
+        if known is not None:
+            kw["known_definite_encodings"] = known
+        d = UnicodeDammit(markup=data, smart_quotes_to=mode, **kw)
+    elif known is None:
+        d = UnicodeDammit(data, smart_quotes_to=mode, **kw)
+    else:
+        d = UnicodeDammit(data, known, smart_quotes_to=mode, **kw)
+    return [d.unicode_markup, bool(d.contains_replacement_characters), d.original_encoding,
+            list(d.markup) if isinstance(d.markup, (bytes, bytearray)) else repr(d.markup), (known, ov, us) == before]
+
+
 SERVER_SRC = r'''
 import sys, os, json, logging
 sys.path.insert(0, sys.argv[1])
@@ -262,11 +311,12 @@ import bs4
 from bs4 import BeautifulSoup
 from bs4.dammit import UnicodeDammit, EncodingDetector
 
+UD_INVOKE_SRC
+
 def call(c):
     k = c["k"]
     if k == "ud":
-        d = UnicodeDammit(bytes(c["b"]), list(c["known"]), smart_quotes_to=c["mode"])
-        return [d.unicode_markup, bool(d.contains_replacement_characters), d.original_encoding, list(d.markup) if isinstance(d.markup, (bytes, bytearray)) else repr(d.markup)]
+        return ud_invoke(UnicodeDammit, c)
     if k == "det":
         return list(UnicodeDammit.detwingle(bytes(c["b"])))
     if k == "soup":
@@ -307,6 +357,10 @@ sys.stdout.flush()
 '''
 
 
+import inspect as _inspect
+SERVER_SRC = SERVER_SRC.replace("UD_INVOKE_SRC", _inspect.getsource(ud_invoke))
+
+
 def pristine(requests):
     """requests: list of call lists. Each list is run, in order, in ONE fork of a process that has imported bs4 and done
     nothing else. Returns the list of result lists."""
@@ -345,17 +399,43 @@ def markup_attr_oracle(call, result):
     return None
 
 
+def effective_first(call):
+    """The encoding the documented candidate order tries first and that cannot fail, when that is determined by the call
+    alone: the first of known_definite_encodings + override_encodings; else (no byte-order mark) the first of
+    user_encodings; else (no byte-order mark, no declaration, input not valid UTF-8) the documented last resort
+    windows-1252.  None = not determined this simply (no oracle; model and history comparisons still apply)."""
+    data = bytes(call["b"])
+    names = list(call.get("known") or []) + list(call.get("override") or [])
+    if names:
+        return names[0]
+    no_bom = strip_bom_oracle(data) == data
+    if call.get("user"):
+        return call["user"][0] if no_bom else None
+    if no_bom and b"<?" not in data and b"encoding" not in data.lower() and py_utf8_decode(data) is None:
+        return "windows-1252"
+    return None
+
+
+def args_oracle(call, result):
+    """The constructor must not change the lists it is given."""
+    if isinstance(result, dict) or len(result) < 5 or result[4]:
+        return None
+    return ("the constructor changed a list passed by the caller (known_definite_encodings / override_encodings / user_encodings)",
+            "the caller's lists unchanged")
+
+
 def ud_call_oracle(call, result, piece):
-    """The property for one UnicodeDammit call whose first known encoding is a documented carrier (any letter case) with a
-    mode set: in-order concatenation of each byte's conversion over the BOM-stripped input. Returns None if satisfied /
-    not applicable, else (what, expected)."""
-    known, mode, data = call["known"], call["mode"], bytes(call["b"])
-    if not known or not expected_carrier(known[0]) or mode is None or not data:
+    """The property for one UnicodeDammit call whose effective first encoding is a documented carrier (any letter case)
+    with a mode set: in-order concatenation of each byte's conversion over the BOM-stripped input. Returns None if
+    satisfied / not applicable, else (what, expected)."""
+    mode, data = call["mode"], bytes(call["b"])
+    first = effective_first(call)
+    if first is None or not expected_carrier(first) or mode is None or not data:
         return None
     if isinstance(result, dict):
         return ("the constructor raised " + result.get("exc", "?"), "a converted string")
     u, repl, orig = result[:3]
-    enc = known[0].lower()
+    enc = first.lower()
     want, badb = whole_input_oracle(strip_bom_oracle(data), enc, mode, piece)
     if badb:
         return (f"the conversion of byte(s) {[hex(b) for b in badb]} does not denote their Windows-1252 character",
@@ -443,7 +523,21 @@ def rand_call(r):
         if r.random() < 0.2:
             known.append(r.choice(SPELLINGS))
         data = rand_doc(r) or b"\x93"
-        return {"k": "ud", "b": list(data), "known": known, "mode": r.choice(MODES)}
+        c = {"k": "ud", "b": list(data), "known": known, "mode": r.choice(MODES)}
+        q = r.random()
+        if q < 0.35:
+            c["form"] = r.choice(UD_FORMS[1:])
+        if r.random() < 0.12:
+            c["override"] = [r.choice(SPELLINGS)]
+            if r.random() < 0.5:
+                c["known"] = None
+        if r.random() < 0.12:
+            c["user"] = [r.choice(SPELLINGS)]
+            if r.random() < 0.6:
+                c["known"] = None
+        if r.random() < 0.08:
+            c["known"] = None               # the default route: utf-8, then windows-1252
+        return c
     if k < 0.86:
         enc = r.choice(SPELLINGS + [None, None])
         doc = (b"<meta charset=" + r.choice(SPELLINGS).encode() + b">" if r.random() < 0.6 else b"") + b"<p>" + rand_smart_input(r)
@@ -545,6 +639,15 @@ def run(ctx: Ctx):
                 b_ = {"k": "ud", "b": [0x93, 0x80 + r.randrange(32), 0x62], "known": [r.choice([canon, canon.upper()])], "mode": m2}
                 mid = {"k": "soup", "b": list(b"<meta charset=" + canon.encode() + b"><p>\x93"), "enc": r.choice([None, canon])}
                 hists.append([a, b_] if r.random() < 0.5 else [a, mid, b_])
+    # the other routes and call forms: an earlier call with override_encodings / user_encodings / a caller-owned list, then
+    # calls that give no known encoding (default route: utf-8 then windows-1252) or only user_encodings; every call form
+    for ov in ["latin-1", "iso-8859-5", "windows_1252", "utf-8", "ISO-8859-2"]:
+        for form in UD_FORMS:
+            first = {"k": "ud", "b": [0x61, 0x93, 0xE9], "known": r.choice([None, None, ["ascii"]]), "override": [ov], "mode": r.choice(MODES), "form": form}
+            later = [{"k": "ud", "b": [0x93, 0x80 + r.randrange(32)], "known": None, "mode": m} for m in r.sample(MODES, 2)]
+            later.append({"k": "ud", "b": [0x93, 0x9F, 0x62], "known": None, "user": [r.choice(DOCUMENTED_CARRIERS)], "mode": r.choice(MODES[1:])})
+            later.append({"k": "ud", "b": [0x85, 0x62], "known": [r.choice(DOCUMENTED_CARRIERS)], "mode": r.choice(MODES[1:]), "form": r.choice(UD_FORMS)})
+            hists.append([first] + later)
     # detwingle several times in one process (chunks or positions remembered from an earlier call would show)
     for _ in range(ctx.n(40, 300)):
         hists.append([{"k": "det", "b": list(r.choice([rand_garbage(r), b"a\x93b", b"\xe2\x82\xac\x80", "caf\u00e9".encode(), b"\x93"]))}
@@ -558,7 +661,7 @@ def run(ctx: Ctx):
     # the spelling grid: every spelling x every mode x a few inputs, each in a pristine process
     for v in (json.load(open(f)) for f in sorted((CORPUS / "C19").glob("*.json"))):
         if v["case"].get("op") == "ud":
-            c = {k: v["case"][k] for k in ("k", "b", "known", "mode")}
+            c = {k: x for k, x in v["case"].items() if k not in ("op", "line")}
             uniq.setdefault(json.dumps(c, sort_keys=True), c)
     for sp in SPELLINGS:
         for mode in MODES:
@@ -569,6 +672,22 @@ def run(ctx: Ctx):
         for mode in MODES[1:]:
             for b in range(0x80, 0xA0):
                 c = {"k": "ud", "b": [b], "known": [enc], "mode": mode}
+                uniq.setdefault(json.dumps(c, sort_keys=True), c)
+    # every call form x mode x carrier (how the mode and the encodings are passed must not matter), the user_encodings
+    # route, the override_encodings route and the default route
+    for mode in MODES:
+        for data in (b"\x93", b"a\x80\x9f\xe9z"):
+            for enc in DOCUMENTED_CARRIERS + ["ISO-8859-1"]:
+                for form in UD_FORMS:
+                    c = {"k": "ud", "b": list(data), "known": [enc], "mode": mode, "form": form}
+                    uniq.setdefault(json.dumps(c, sort_keys=True), c)
+                for extra in ({"user": [enc], "known": None}, {"override": [enc], "known": None}, {"override": [enc], "known": ["ascii"]},
+                              {"user": ["latin-1"], "known": [enc]}, {"known": [enc, "latin-1"], "override": ["utf-8"]}):
+                    for form in ("kw", "pos3", "allkw"):
+                        c = {"k": "ud", "b": list(data), "known": [enc], "mode": mode, "form": form, **extra}
+                        uniq.setdefault(json.dumps(c, sort_keys=True), c)
+            for form in ("kw", "pos3", "allkw"):
+                c = {"k": "ud", "b": list(data), "known": None, "mode": mode, "form": form}
                 uniq.setdefault(json.dumps(c, sort_keys=True), c)
     keys = list(uniq)
     fresh = dict(zip(keys, [x[0] for x in pristine([[uniq[k]] for k in keys])]))
@@ -588,8 +707,8 @@ def run(ctx: Ctx):
             ctx.case(("H", json.dumps(h[:i + 1], sort_keys=True)) if i > 0 else None)
             ctx.count(f"history:call:{c['k']}")
             if c["k"] == "ud" and i > 0:
-                bad = ud_call_oracle(c, got, fresh_piece) or markup_attr_oracle(c, got)
-                if bad and (ud_call_oracle(c, want, fresh_piece) or markup_attr_oracle(c, want)):
+                bad = ud_call_oracle(c, got, fresh_piece) or markup_attr_oracle(c, got) or args_oracle(c, got)
+                if bad and (ud_call_oracle(c, want, fresh_piece) or markup_attr_oracle(c, want) or args_oracle(c, want)):
                     bad = None      # the same call fails on its own: reported, minimal, by the pristine-ud stream below
                 if bad:
                     limited(ctx, bad[0] + " (after earlier calls in the same process)", stream="history-oracle",
@@ -612,10 +731,12 @@ def run(ctx: Ctx):
         c, res = uniq[k], fresh[k]
         if c["k"] != "ud":
             continue
-        known, mode, data = c["known"], c["mode"], bytes(c["b"])
-        nontriv = expected_carrier(known[0]) and mode is not None and any(0x80 <= x <= 0x9F for x in strip_bom_oracle(data))
+        known, mode, data = c.get("known"), c["mode"], bytes(c["b"])
+        nontriv = call_nontrivial(c)
         ctx.case(("U", k) if nontriv else None)
         ctx.count("pristine-ud:" + ("carrier-spelling+mode+smart" if nontriv else "other"))
+        ctx.count("pristine-ud:form:" + c.get("form", "kw") + ("+override" if c.get("override") else "") + ("+user" if c.get("user") else "")
+                  + ("+no-known" if known is None else ""))
         if isinstance(res, dict):
             ctx.violation("the constructor raised " + res.get("exc", "?"), stream="pristine-ud", case={"op": "ud", **c},
                           expected="a result", observed=res)
@@ -623,12 +744,12 @@ def run(ctx: Ctx):
         bad = ud_call_oracle(c, res, fresh_piece)
         if bad:
             limited(ctx, bad[0], stream="pristine-ud", case={"op": "ud", **c}, expected=bad[1], observed=res[0])
-        bad = markup_attr_oracle(c, res)
+        bad = markup_attr_oracle(c, res) or args_oracle(c, res)
         if bad:
             limited(ctx, bad[0], stream="pristine-ud", case={"op": "ud", **c}, expected=bad[1], observed=res[3])
-        lines.append(dammit_line(data, known, mode)); impl.append(show_dammit(*res[:3])); cases.append({"op": "ud", **c})
+        lines.append(call_line(c)); impl.append(show_dammit(*res[:3])); cases.append({"op": "ud", **c})
         # record what the code does with spellings the property does not name
-        if len(data) == 1 and mode == "xml" and not expected_carrier(known[0]):
+        if len(data) == 1 and mode == "xml" and known and c.get("form", "kw") == "kw" and not c.get("override") and not c.get("user") and not expected_carrier(known[0]):
             spelling_obs[known[0]] = {"find_codec->original_encoding": res[2], "converted": res[0] != data.decode("latin-1") and "&" in (res[0] or "")}
     ctx.extra["spellings_outside_the_documented_three"] = spelling_obs
 
@@ -829,13 +950,16 @@ def run(ctx: Ctx):
         c = rand_call(r)
         while c["k"] != "ud":
             c = rand_call(r)
-        data, known, mode = bytes(c["b"]), c["known"], c["mode"]
+        data, known, mode = bytes(c["b"]), c.get("known"), c["mode"]
         try:
-            res = list(real_dammit(data, known, mode))
+            with warnings.catch_warnings():
+                warnings.simplefilter("ignore")
+                res = ud_invoke(U, c)
         except Exception as e:
             limited(ctx, f"the constructor raised {type(e).__name__}", stream="ud-random", case={"op": "ud", **c}, expected="a result", observed=repr(e))
             continue
-        nontriv = expected_carrier(known[0]) and mode is not None and any(0x80 <= x <= 0x9F for x in strip_bom_oracle(data))
+        nontriv = call_nontrivial(c)
+        ctx.count("ud-random:form:" + c.get("form", "kw"))
         ctx.case(("B2", json.dumps(c, sort_keys=True)) if nontriv else None)
         ctx.count("ud-random:" + ("carrier-spelling+mode+smart" if nontriv else "other"))
         if strip_bom_oracle(data) != data:
@@ -844,10 +968,10 @@ def run(ctx: Ctx):
             ctx.count("ud-random:has-lt")
         if declared_of(data):
             ctx.count("ud-random:declares-encoding")
-        bad = ud_call_oracle(c, res, piece)
+        bad = ud_call_oracle(c, res, piece) or markup_attr_oracle(c, res) or args_oracle(c, res)
         if bad:
             limited(ctx, bad[0], stream="ud-random", case={"op": "ud", **c}, expected=bad[1], observed=res[0])
-        lines.append(dammit_line(data, known, mode)); impl.append(show_dammit(*res)); cases.append({"op": "ud", **c})
+        lines.append(call_line(c)); impl.append(show_dammit(*res[:3])); cases.append({"op": "ud", **c})
     # correspondence for A + B
     rep = drv.ask(lines)
     nd = 0
@@ -896,6 +1020,12 @@ def run(ctx: Ctx):
             di.append(f"ok=1 src={L(data)} out={L(out)}"); dc.append(case)
         return out
 
+    for data in (b"", b"a", b"\x00", b"plain ascii"):
+        try:
+            det_case(data, "detwingle-table", expect_text=data.decode())
+        except Exception as e:
+            ctx.violation(f"detwingle raised {type(e).__name__} on a byte string", case={"op": "detwingle", "bytes": list(data)},
+                          expected="a bytes result", observed=repr(e), stream="detwingle-table")
     for b in range(0x80, 0x100):
         data = b"a" + bytes([b]) + b"z"
         if b in conv:
@@ -1078,11 +1208,14 @@ def run(ctx: Ctx):
             ctx.case(("D", main, emb, fname) if accepted else None)
             ctx.count("detwingle:argcheck:" + ("accepted-spelling" if acc_here else "other-spelling") + ":" + got.split()[0])
             if acc_here:
-                want = "ok " + L(real_detwingle(data))
+                try:
+                    want = "ok " + L(real_detwingle(data))
+                except Exception as e_:
+                    want = "raised " + type(e_).__name__      # reported by the detwingle streams themselves
                 if got != want:
-                    ctx.violation(f"detwingle with the accepted spellings main_encoding={eff_main!r}, embedded_encoding={eff_emb!r} ({fname}) "
-                                  + ("raised " + got if not got.startswith("ok") else "differs from the one-argument call"),
-                                  case=case, expected=want, observed=got, stream="detwingle-argcheck")
+                    limited(ctx, f"detwingle with the accepted spellings main_encoding={eff_main!r}, embedded_encoding={eff_emb!r} ({fname}) "
+                            + ("raised " + got if not got.startswith("ok") else "differs from the one-argument call"),
+                            case=case, expected=want, observed=got, stream="detwingle-argcheck")
 
     # C4. the Lean strict UTF-8 decoder (the theorems' notion of validity) vs CPython's
     r = ctx.rng("utf8dec")
@@ -1143,15 +1276,16 @@ def replay(path):
         print("last call, in a fresh process:", json.dumps(alone))
         bad = hist[-1] != alone
         if calls[-1]["k"] == "ud":
-            o = ud_call_oracle(calls[-1], hist[-1], pristine_piece) or markup_attr_oracle(calls[-1], hist[-1])
+            o = ud_call_oracle(calls[-1], hist[-1], pristine_piece) or markup_attr_oracle(calls[-1], hist[-1]) or args_oracle(calls[-1], hist[-1])
             if o:
                 print("property:", o[0], "; demanded:", o[1])
                 bad = True
         return 1 if bad else 0
     if op == "ud":
-        res = pristine([[{k: c[k] for k in ("k", "b", "known", "mode")}]])[0][0]
-        print("UnicodeDammit(%r, %r, smart_quotes_to=%r) ->" % (bytes(c["b"]), c["known"], c["mode"]), json.dumps(res))
-        o = ud_call_oracle(c, res, pristine_piece) or markup_attr_oracle(c, res)
+        call = {k: v for k, v in c.items() if k not in ("op", "line")}
+        res = pristine([[call]])[0][0]
+        print("UnicodeDammit call %s ->" % json.dumps({k: v for k, v in call.items() if k != "b"} | {"markup": repr(bytes(c["b"]))}), json.dumps(res))
+        o = ud_call_oracle(call, res, pristine_piece) or markup_attr_oracle(call, res) or args_oracle(call, res)
         if o:
             print("property:", o[0], "; demanded:", o[1])
         return 1 if o else 0
@@ -1178,7 +1312,14 @@ def replay(path):
         return 0 if got == want else 1
     if op == "detwingle":
         data = bytes(c["bytes"])
-        out = real_detwingle(data)
+        try:
+            out = real_detwingle(data)
+        except Exception as e:
+            print(f"detwingle({data!r}) raised {type(e).__name__}: {e}")
+            return 1
+        if v.get("expected") == "a bytes result":
+            print(f"detwingle({data!r}) = {out!r} (no exception)")
+            return 0
         print(f"detwingle({data!r}) = {out!r}")
         print("property demands (hex):", v.get("expected"), " observed (hex):", out.hex())
         if c.get("clause"):
